@@ -1059,3 +1059,109 @@ FL_SCOPE = {
 def flags_for_property(F, pid, rule_id):
 	res, floor = FL_SCOPE[pid]
 	return fl_rule(F, rule_id, res, floor)
+
+# ----------------------------------------------------------------------------- panic sites in code that handles untrusted input
+# C13 / C15 / C18 say that no input can panic the node.  Panic freedom is not decided here (section 5); what is decided is that the code
+# which parses and handles untrusted bytes does not GAIN a panic site: per function, the number of unwrap / expect calls, explicit panics,
+# bounds-checked index operations (Index::index on slices / Vec / maps, copy_from_slice, split_at) and the compiler's own bounds /
+# division-by-zero assertions must not exceed the reviewed count of the same build profile (rules/provenance_panics.json; debug assertions and
+# overflow checks exist in the dev profile only); `lock().unwrap()` is not counted.  New functions are not judged, losing a site is fine.
+_PNC = {}
+_PN_TABLE = None
+_PN_CALLS = {
+	'core::option::Option::<T>::unwrap': 'unwrap', 'core::result::Result::<T, E>::unwrap': 'unwrap', 'core::option::Option::<T>::expect': 'unwrap',
+	'core::result::Result::<T, E>::expect': 'unwrap', 'core::result::Result::<T, E>::unwrap_err': 'unwrap', 'core::result::Result::<T, E>::expect_err': 'unwrap',
+}
+_PN_TAILS = {'copy_from_slice': 'slice-len', 'clone_from_slice': 'slice-len', 'split_at': 'slice-len', 'split_at_mut': 'slice-len',
+	'swap_remove': 'index', 'split_off': 'index'}
+
+def pn_table():
+	global _PN_TABLE
+	if _PN_TABLE is None:
+		_PN_TABLE = json.load(open(os.path.join(os.path.dirname(os.path.abspath(__file__)), 'provenance_panics.json')))
+	return _PN_TABLE
+
+def pn_census(F):
+	if F.dir in _PNC:
+		return _PNC[F.dir]
+	cnt = collections.Counter()
+	where = {}
+	for n, r in F.fns.items():
+		if not n.startswith(('lightning', '<lightning')) or F.impl_kind.get(root_fn(n)) == 'derived':
+			continue
+		try:
+			fu = F.func(n)
+		except AnchorMissing:
+			continue
+		fl = r['file'].split('/')[0] + ':' + (r['file'].split('src/')[-1] if 'src/' in r['file'] else r['file'])
+		tail = root_fn(n).rsplit('::', 1)[-1]
+		live = fu.reach([0])
+		for bi, b in enumerate(fu.blocks):
+			if bi not in live or fu.is_cleanup(bi):
+				continue
+			t = b['t']
+			kind = None
+			if t[1] == 'assert' and len(t) > 5 and not str(t[5]).startswith('overflow'):
+				# overflow assertions exist in debug builds only (release arithmetic wraps): not a production panic, not counted
+				kind = 'assert-' + str(t[5]).split(':')[0]
+			elif t[1] in ('call', 'tailcall'):
+				ci = t[2]
+				f = norm(ci.get('f') or '')
+				tr = norm(ci.get('t') or '')
+				raw = ci.get('f') or ''
+				if raw in _PN_CALLS:
+					g = ci.get('g') or ''
+					if 'PoisonError' in g or 'MutexGuard' in g or 'RwLockReadGuard' in g or 'RwLockWriteGuard' in g:
+						kind = None   # lock().unwrap(): poisoning, not input
+					else:
+						kind = _PN_CALLS[raw]
+				elif f.startswith(('core::panicking::', 'std::rt::begin_panic', 'core::option::unwrap_failed', 'core::result::unwrap_failed', 'core::option::expect_failed')):
+					# debug_assert / assert_eq machinery only in dev; explicit panic!/unreachable! in both
+					kind = 'panic'
+				elif tr.endswith(('ops::index::Index::index', 'ops::index::IndexMut::index_mut')) or f.endswith(('ops::index::Index::index', 'ops::index::IndexMut::index_mut')):
+					kind = 'index'
+				elif f.rsplit('::', 1)[-1] in _PN_TAILS and ('slice' in f or 'vec' in f.lower()):
+					kind = _PN_TAILS[f.rsplit('::', 1)[-1]]
+			if kind:
+				k = (fl, tail, kind)
+				cnt[k] += 1
+				where.setdefault(k, (n, t[0]))
+	_PNC[F.dir] = (cnt, where)
+	return _PNC[F.dir]
+
+def pn_rule(F, rule_id, file_res, floor=1):
+	import re
+	cnt, where = pn_census(F)
+	tab = pn_table()
+	prof = 'dev' if F.dir.rstrip('/').endswith('-dev') else 'release'
+	tcount = {tuple(x[:3]): x[3] for x in tab[prof]}
+	tknown = {k: set(v) for k, v in sc_table()['known'].items()}
+	out = []
+	n = 0
+	for k, c in sorted(cnt.items()):
+		fl, tail, kind = k
+		if not any(re.search(p, fl.replace(':', '/src/')) for p in file_res):
+			continue
+		n += c
+		if tail not in tknown.get(fl, ()):
+			continue
+		if c > tcount.get(k, 0):
+			fn, line = where[k]
+			out.append(Result(rule_id, False, 'panic-site:%s:%s' % (tail, kind), '%s now has %d `%s` panic site(s) (reviewed: %d): code that handles untrusted input gained an operation that aborts the node when its operand is out of range / absent' % (tail, c, kind, tcount.get(k, 0)), 1, where=F.where(fn, line)))
+	if n < floor:
+		return [Result(rule_id, False, 'anchor:panic-sites', 'only %d panic sites found in %s (expected >= %d)' % (n, file_res, floor))]
+	if not out:
+		out.append(Result(rule_id, True, 'ok:panic-sites', '%d potential panic sites (unwrap / expect / panic / index / length-checked copy / bounds and division assertions) in %s: no reviewed function gained one' % (n, '|'.join(file_res)), n))
+	return out
+
+PN_SCOPE = {
+	'C13': ([r'ln/msgs\.rs$', r'ln/wire\.rs$', r'util/ser\.rs$', r'lightning-types/src/features\.rs$', r'ln/script\.rs$'], 50),
+	'C14': ([r'ln/onion_utils\.rs$', r'ln/onion_payment\.rs$', r'blinded_path/'], 50),
+	'C15': ([r'ln/peer_handler\.rs$', r'ln/peer_channel_encryptor\.rs$', r'ln/wire\.rs$', r'crypto/'], 50),
+	'C17': ([r'routing/gossip\.rs$', r'routing/utxo\.rs$', r'lightning-rapid-gossip-sync/'], 20),
+	'C18': ([r'offers/', r'lightning-invoice/src/', r'util/bech32'], 50),
+}
+
+def panics_for_property(F, pid, rule_id):
+	res, floor = PN_SCOPE[pid]
+	return pn_rule(F, rule_id, res, floor)
